@@ -99,6 +99,7 @@ PROPS["C14"] = {
 
 PROPS["C17"] = {
     "families": ["C17"],
+    "modules": ["C17", "C17b"],
     "gen_deps": ["openflow13.oxxFieldHeaderMap", "openflow13.newMatchFieldHeader"],
     "rule": "reg0: every window (offset,width) inside 32 bits (528) x values 0,1,2^w-1,random; register comparison against NewRegMatchField for every "
             "window; every registered field x {no mask with 0,1,max,random; 12 windows incl. full field and top bit x shift / no-shift / one-argument "
@@ -106,7 +107,7 @@ PROPS["C17"] = {
             "kinds uint8..uint64, int8..int64, int, []byte, *big.Int with the argument re-read after the call}. Non-trivial = a field was built.",
     "trivial_outputs": ["err", "err arg=1", "err arg=-1"],
     "level_text": "Kernel-checked theorems over a model of NewMatchField with unbounded integers (math/big = Int/Nat): totality (for ANY name, integer and mask arguments the result is a field or an error, never a panic or an endless computation); for every window inside the field the value bytes are v*2^s, the mask bytes exactly the window, value has no bit outside the mask, both L bytes; no-mask form; every class of unrepresentable input (too wide, window beyond the field, value wider than its window, negative value, negative argument, unknown name, more than three arguments) is an error. Tie: the real generic function (10 instantiations) is run on all generated cases and compared with the model; an independent oracle recomputes the expected payload bytes from the specification table and demands an error for unrepresentable input; the caller's argument is re-read after each call.",
-    "level_note": "The theorems are about the code after the repair commit 29c7516 (fix: in /repo). Trusted: Lean kernel; math/big modelled by Int/Nat (Lsh, And, BitLen, Bytes, Cmp on non-negative values); the registry lookup model (C15). Equality with NewRegMatchField is checked differentially on every window (the theorem needs the match-field encoder model).",
+    "level_note": "The theorems are about the code after the repair commit 29c7516 (fix: in /repo). Trusted: Lean kernel; math/big modelled by Int/Nat (Lsh, And, BitLen, Bytes, Cmp on non-negative values); the registry lookup model (C15). Equality of the encoded bytes with NewRegMatchField / NewCTMarkMatchField / NewCTStateMatchField / NewConjIDMatchField is a theorem for every register, window and value (C17b_reg_window, C17b_reg_plain, ...) and is additionally checked differentially on every window.",
     "assumptions": COMMON_ASSUMPTIONS + ["math/big semantics as modelled in OFV.Model.MatchFieldGen"],
 }
 
@@ -198,17 +199,17 @@ PROPS["C07"] = {
 }
 
 PROPS["C13"] = {
-    "families": ["OF"], "ops": "rep,repx,embed", "gen_deps": [],
+    "families": ["OF"], "ops": "rep,repx,embed", "gen_deps": [], "modules": ["C13", "C13b"],
     "rule": "rep: on every API-built value (every kind; valid histories) one of 14 scripts of Len() / MarshalBinary() calls (L, M, LL, MM, LM, ML, LML, MLM, LLMM, MMLL, LMLMLMLM, MMMM, LLLL, MLLM); every Len() in a script must give the same "
             "number, every MarshalBinary() the same bytes, and the dump afterwards is compared with the model; repx: the same scripts on arbitrary literal values (correspondence only). Non-trivial = the encoder produced bytes.",
     "trivial_outputs": ["err", "panic", "Merr", "-"],
-    "level_text": "Kernel-checked (Props/C13.lean, 105 theorems): round8 idempotent for every n; purity (Len()/MarshalBinary() leave the value unchanged) for the header, all 30 match payload kinds, match field, match, 23 action/spec kinds, instructions, hello elements and 20 message kinds; for the kinds that store something when sized or encoded (resubmit, controller, note, reg_load2, learn, CT NAT rounding, conntrack, apply-actions, bucket, group-mod, flow-mod, hello, switch-config, port-mod, port-status, switch-features, bundle property) the bundle Repeatable: a second Len() gives the same size and changes nothing further, a second MarshalBinary() gives the same bytes and changes nothing further, Len() after MarshalBinary() = Len() before, MarshalBinary() after Len() = MarshalBinary() alone — composing to every nesting depth of conntrack actions; Repeatable + size theorem give Len() after encoding = number of bytes. Oracle on the implementation: scripts of repeated calls on every API-built value.",
-    "level_note": OF_NOTE + " Repeatable is not yet proved for packet-out, vendor header, bundle-add, multipart request/reply, flow-stats and packet-in (same pattern with child hypotheses; decided by the rep oracle and the correspondence).",
+    "level_text": "Kernel-checked (Props/C13.lean, 105 theorems): round8 idempotent for every n; purity (Len()/MarshalBinary() leave the value unchanged) for the header, all 30 match payload kinds, match field, match, 23 action/spec kinds, instructions, hello elements and 20 message kinds; for the kinds that store something when sized or encoded (resubmit, controller, note, reg_load2, learn, CT NAT rounding, conntrack, apply-actions, bucket, group-mod, flow-mod, hello, switch-config, port-mod, port-status, switch-features, bundle property) the bundle Repeatable: a second Len() gives the same size and changes nothing further, a second MarshalBinary() gives the same bytes and changes nothing further, Len() after MarshalBinary() = Len() before, MarshalBinary() after Len() = MarshalBinary() alone — composing to every nesting depth of conntrack actions; Repeatable + size theorem give Len() after encoding = number of bytes. Props/C13b.lean (44 theorems): interface_repeatable — for EVERY value v of every one of the 123 modelled kinds (every_kind_repeatable), with no well-formedness hypothesis, Repeatable holds through the interface dispatch at every nesting depth (packet-out, vendor header with every payload, bundle-add, multipart request/reply, flow-stats, packet-in with Ethernet/IPv4/IPv6/ARP/ICMP/UDP/TCP payloads included); script_repeatable — any script of Len()/MarshalBinary() calls of any length in any order answers the first size and the first bytes and the value stops changing at the first MarshalBinary(); embed_again — a child sized or encoded again inside a parent gives the same bytes. Oracle on the implementation: scripts of repeated calls on every API-built value and on literal values.",
+    "level_note": OF_NOTE + " Repeatable says nothing when the first Len()/MarshalBinary() itself fails (the script theorems assume the value is sizeable and encodable).",
     "assumptions": COMMON_ASSUMPTIONS,
 }
 
 PROPS["C05"] = {
-    "families": ["OF"], "ops": "rtrip,rtparse,rtw,rtx,enc,dec", "gen_deps": [],
+    "families": ["OF"], "ops": "rtrip,rtparse,rtw,rtx,enc,dec", "gen_deps": [], "modules": ["C05", "C05b"],
     "rule": "rtrip / rtparse: every API-built value (every kind; valid histories incl. bundle-add wrapping any message) is encoded, the bytes are followed by 8 other bytes inside a larger backing array, decoded by the kind's "
             "own decoder (elements) or by openflow13.Parse (top-level messages), and re-encoded: the re-encoding must equal the encoding and the reported size its length; rtx: the same on literal values (correspondence only); "
             "dec: decoders on captured encodings with truncations / corruptions (correspondence). Non-trivial = the value was encoded.",
@@ -219,7 +220,7 @@ PROPS["C05"] = {
 }
 
 PROPS["C04"] = {
-    "families": ["OF"], "ops": "sw,parse", "gen_deps": [],
+    "families": ["OF"], "ops": "sw,parse", "gen_deps": [], "modules": ["C04", "C04b"],
     "rule": "sw: an INDEPENDENT encoder of switch-sent messages written from the OpenFlow 1.3 / Nicira / ONF-bundle specifications with a plain byte builder (harness/cmd/ofvrun/of_switch.go; no encoder of the library is used) produces 20 kinds: hello with version bitmaps, "
             "error, experimenter error, echo without and with payload, features reply, get-config reply, packet-in (random OXM matches of 18 field kinds with and without masks; Ethernet frames tagged/untagged carrying IPv4/ICMP with all sub-byte fields, IPv4/UDP, ARP, IPv6 with hop-by-hop and "
             "fragment headers and ICMPv6/UDP, unknown ethertype), flow-removed, port-status, multipart replies (description, flow stats with matches and instruction/action lists, aggregate, table, port, queue, port descriptions), barrier reply, Nicira TLV-table reply, ONF bundle-control reply — "
